@@ -14,6 +14,9 @@ R07.5 Calculator.change takes the 1-deep undo shortcut only when ALL changes of 
 Added later in build rounds 2-3 (see DESIGN.md section 3, round-2/3 table):
 R07.6 no name bound by `except ... as NAME` is read after its handler in the recalculation package: Python unbinds it when the handler ends, so the read ...
 R07.7 a leaf definition answers questions about its current settings from the primary state (self.assignments), not from what update() derives from it ...
+R07.8 zero is a value: numeric rule fields are selected by `is not None`.
+R07.9 every updated definition marks all its clients, on every path (CFG).
+R07.10 no input that is free by default is hidden from the exported rules by user_param = False.
 """
 
 from __future__ import annotations
